@@ -278,18 +278,29 @@ def real_pool_task(payload):
     base, _ = baseline(name, tier)
     violations = []
     stats = {"real_pool_runs": 0}
-    for p in payload["procs"]:
-        with warnings.catch_warnings():
-            warnings.simplefilter("ignore")
-            try:
-                res = canon(fn(build_model(variant), p, list(items) if items is not None else None))
-            except Exception as exc:
-                res = ("raised", type(exc).__name__, str(exc)[:200])
-        stats["real_pool_runs"] += 1
-        ok = same(res, base) if "moma" not in name else moma_ok(res, base)
-        if not ok:
-            violations.append(({"fn": name, "check": "real pool result differs from processes=1", "procs": p},
-                               {"name": name, "procs": p, "real": True}, f"got {res}\nexpected {base}"))
+    import multiprocessing
+
+    methods = ["fork"] + (["spawn"] if payload.get("spawn") else [])
+    for method in methods:
+        # "spawn" is the start method of macOS/Windows: initargs (the model!) travel through pickle
+        multiprocessing.set_start_method(method, force=True)
+        try:
+            for p in (payload["procs"] if method == "fork" else payload["procs"][:1]):
+                with warnings.catch_warnings():
+                    warnings.simplefilter("ignore")
+                    try:
+                        res = canon(fn(build_model(variant), p, list(items) if items is not None else None))
+                    except Exception as exc:
+                        res = ("raised", type(exc).__name__, str(exc)[:200])
+                stats["real_pool_runs"] += 1
+                ok = same(res, base) if "moma" not in name else moma_ok(res, base)
+                if not ok:
+                    violations.append(({"fn": name, "check": "real pool result differs from processes=1", "procs": p,
+                                        "start_method": method},
+                                       {"name": name, "procs": p, "real": True, "start_method": method},
+                                       f"start method {method}\ngot {res}\nexpected {base}"))
+        finally:
+            multiprocessing.set_start_method("fork", force=True)
     return {"violations": violations, "stats": stats}
 
 
@@ -313,7 +324,8 @@ def replay(case):
         r = sampling_task({"procs": case["procs"], "n": case["n"], "bound": 0})
         return [{"sig": s, "detail": d} for s, c, d in r["violations"]]
     if case.get("real"):
-        r = real_pool_task({"name": case["name"], "tier": "thorough", "procs": [case["procs"]]})
+        r = real_pool_task({"name": case["name"], "tier": "thorough", "procs": [case["procs"]],
+                            "spawn": case.get("start_method") == "spawn"})
         return [{"sig": s, "detail": d} for s, c, d in r["violations"]]
     name, procs, perm, choices = case["name"], case["procs"], case["perm"], tuple(case["choices"])
     base, _ = baseline(name, "thorough")
@@ -339,7 +351,9 @@ def explore(ctx):
                 if ctx.tier == "quick" and perm % 3 and perm != 0:
                     b = 0
                 payloads.append({"name": name, "tier": ctx.tier, "procs": p, "perm": perm, "bound": b})
-        payloads.append({"kind": "real", "name": name, "tier": ctx.tier, "procs": [2, 3] if ctx.tier == "quick" else [2, 3, 4, 6]})
+        payloads.append({"kind": "real", "name": name, "tier": ctx.tier, "procs": [2, 3] if ctx.tier == "quick" else [2, 3, 4, 6],
+                         "spawn": name in ("fva", "single_gene_deletion", "double_gene_deletion", "blocked",
+                                           "single_gene_deletion_moma", "fva_loopless")})
     for p in procs_menu:
         for n in (4, 5):
             payloads.append({"kind": "sampling", "procs": p, "n": n, "bound": bound})
